@@ -4,6 +4,7 @@ import PyxModel.Prebuild.Canon
 import PyxModel.Prebuild.Typing
 import PyxModel.Prebuild.Chain
 import PyxModel.Prebuild.Recipe
+import Driver.C06Flat   -- FLAT: dump of the flat population model
 
 /-! driver commands of property C06:
       (c06 (ctx classes funcs ees enums consts params self) <BodyNode tree> ((event-label "'meaning'")…))
@@ -145,7 +146,9 @@ def handle : List Sexp → Option Sexp
                   list ((sortNat acc.pars).map fun n => list (rowNext n)),
                   list ((sortNat acc.links).map fun n => list (rowNext n)),
                   list ((sortNat acc.evts).map fun n => list (rowNextEvt n)),
-                  list ((varWalk c cb).map fun r => list [str r.1, match r.2 with | some t => str t | none => sym "none"])])
+                  list ((varWalk c cb).map fun r => list [str r.1, match r.2 with | some t => str t | none => sym "none"]),
+                  -- FLAT: last element = canonical dump of the flat population model, or (not-compared)
+                  Pyx.Driver.C06Flat.dump { cc with selfKl := c.selfKl, enums := c.enums } cb])
     | _, _ => some (list [sym "error", sym "undecodable"])
   | [sym "c06-schema"] =>
     -- what the GENERATED schema table demands of an instance of each created class, and of each supertype
